@@ -240,6 +240,9 @@ def check_property(pid, tier, seed):
         if tcfg.get("calc"):
             _, nbeh = run_calc(specdir, drv, tdir, seed, tcfg["calc"])
         shard_files = sorted(os.path.join(tdir, f) for f in os.listdir(tdir) if f.endswith(".ndjson"))
+        grids = {}
+        if os.path.exists(os.path.join(tdir, "grids.json")):
+            grids = {k: dict(cells_walked=v[0], cells=v[1]) for k, v in json.load(open(os.path.join(tdir, "grids.json"))).items()}
 
         models = tcfg.get("models", [])
         if os.environ.get("VERIF_SKIP_MODELS"):      # development aid (seeded-change evaluation): the small-format models
@@ -367,6 +370,7 @@ def check_property(pid, tier, seed):
                 "trace_steps": steps, "steps_per_op": per_op, "undecided_steps": undecided,
                 "known_finding_steps": len(known),
                 "steps_from_repository_test_vectors": vec_steps,
+                "enumerated_grids": grids,
                 "negative_controls": negs,
                 "race_detector": ("on, no report" if prop.get("race") and not race_report else ("REPORTED" if race_report else "off")),
             },
